@@ -193,7 +193,13 @@ func checkC10(replay string) {
 		}
 		cfg := [][]string{{}, {"-config.scan-tests=true"}, {"-config.scan-tests=true", "-config.exclude-paths=", "-config.exclude-checks=zz"}}[pi%3]
 		text := pi%4 == 1
-		res := ggrun.Run(ggrun.Opts{Dir: root, Args: append(append([]string{}, cfg...), "./..."), Text: text})
+		res := ggrun.Run(ggrun.Opts{Dir: root, Args: append(append([]string{}, cfg...), "./..."), Text: text, Timeout: 40 * time.Second})
+		if res.TimedOut && res.CPU > 20*time.Second {
+			// a generated program normally needs ~0.1 s of CPU; 20 s of CPU inside a 40 s watchdog is a hang, not a slow machine
+			r.Eval(1)
+			r.Violate("hang/generated-program", fmt.Sprintf("generated program %d cfg %v: the tool used %v of CPU without terminating (watchdog 40 s)\n%s", pi, cfg, res.CPU, head(res.Stderr, 3000)), fs)
+			return
+		}
 		if bad, _ := res.Crashed(text); bad {
 			if ok, out := ggrun.CompileCheck(root); !ok {
 				keep := "/var/tmp/vfw-noncompiling"
